@@ -148,6 +148,18 @@ func runNode(c *Ctx, w *ws.Workspace, ops []any) (map[string]map[string]any, err
 }
 
 // tsModules returns the relative paths (under ws/ts) of the client and server modules of a single-file unit.
+// oneServiceFile: the spec has exactly one file that declares services (the TS plugins emit one self-contained module per
+// service file, re-declaring the types it imports; units with several service files are generation-level units).
+func oneServiceFile(s *spec.Spec) bool {
+	n := 0
+	for _, f := range s.Files {
+		if len(f.Services) > 0 {
+			n++
+		}
+	}
+	return n == 1
+}
+
 func tsModules(u *ws.Unit) (client, server string) {
 	for n := range u.TSFiles {
 		if strings.HasSuffix(n, "_client.ts") {
@@ -198,7 +210,7 @@ func C08(c *Ctx, r *report.Run) error {
 	r.Rule = "for every RPC of the REST/query/path-kind/header/multi-service/codec units and every enumerated request / response value expressible in TypeScript (JSON numbers within 2^53, no non-finite floats): (1) TS client -> Go server: the emitted TS client runs under node 22 with a recording fetch, the recorded request is replayed byte-for-byte on the generated Go server, the Go response is fed back to the TS client; (2) Go client -> TS server: the generated Go client's recorded request is routed through the emitted RouteDescriptors to the emitted TS handler, whose response is fed back to the Go client; (3) TS client -> TS server inside node; oracle: the handler of the same RPC receives the request the caller passed and the caller receives the handler's response; (4) every typed header option of both clients is called with a marker and must put it under exactly the declared header name; distinct = (unit, rpc, pairing, outcome)"
 	var specs []*spec.Spec
 	for _, s := range serviceSpecs(c) {
-		if !hasTag(s, "ctx") && !hasTag(s, "rules") && !hasTag(s, "mock") && len(s.Files) == 1 && !hasTag(s, "serveronly") {
+		if !hasTag(s, "ctx") && !hasTag(s, "rules") && !hasTag(s, "mock") && oneServiceFile(s) && !hasTag(s, "genonly") && !hasTag(s, "serveronly") {
 			specs = append(specs, s)
 		}
 	}
